@@ -59,7 +59,7 @@ MODS = ['rsatoolbox.rdm.calc', 'rsatoolbox.data.computations', 'rsatoolbox.data.
 
 def tier_b(run, thorough):
     import sympy as sp
-    from vf.symrun.core import symarray, patched_np, identical, OVERRIDES_USED, witness
+    from vf.symrun.core import symarray, patched_np, identical, OVERRIDES_USED, witness, guard
     from rsatoolbox.data import Dataset
     import rsatoolbox.rdm.calc as calc
     designs = [(2, 2, 1, 2), (3, 2, 1, 2), (2, 3, 1, 2), (2, 2, 2, 2)] + ([(3, 3, 1, 2), (2, 3, 2, 2)] if thorough else [])
@@ -79,74 +79,76 @@ def tier_b(run, thorough):
 
     for (C, M, R, P) in designs:
         for order in ('sorted', 'reversed', 'interleaved'):
-            cond, fold = _design(C, M, R, order)
-            X = symarray('x', (len(cond), P))
-            for flabels, fname in ((fold, 'int-folds'), ([['b', 'a', 'c'][f] for f in fold], 'str-folds')):
-                if fname == 'str-folds' and order != 'sorted':
-                    continue
-                ds = Dataset(X.copy(), obs_descriptors={'cond': list(cond), 'fold': list(flabels)})
-                tag = f'[C={C},M={M},R={R},P={P},{order},{fname}]'
-                case = dict(C=C, M=M, R=R, P=P, order=order, folds=fname)
-                # --- crossnobis, identity precision
-                with patched_np(MODS):
-                    got = calc.calc_rdm_crossnobis(ds, 'cond', cv_descriptor='fold').dissimilarities[0]
-                want = _spec_cv(X, cond, fold, C, M, lambda am, bm, an, bn, m, n: np.dot(am - bm, an - bn))
-                ok, idx, diff = identical(got, want)
-                record(f'C02/calc_rdm_crossnobis/B/mean-over-ordered-fold-pairs{tag}', ok, idx, diff, case,
-                       'crossnobis(a,b) == mean over ordered pairs of distinct folds of (x_am-x_bm).(x_an-x_bn)/P for all real data')
-                # --- crossnobis, one symbolic symmetric precision
-                L = symarray('l', (P, P))
-                N = np.dot(L, L.T)
-                with patched_np(MODS):
-                    got = calc.calc_rdm_crossnobis(ds, 'cond', noise=N, cv_descriptor='fold').dissimilarities[0]
-                want = _spec_cv(X, cond, fold, C, M, lambda am, bm, an, bn, m, n: np.dot(np.dot(am - bm, N), an - bn))
-                ok, idx, diff = identical(got, want)
-                record(f'C02/calc_rdm_crossnobis/B/single-precision{tag}', ok, idx, diff, case,
-                       'same with a symbolic symmetric precision matrix')
-                # --- poisson_cv
-                lam0, w = sp.Symbol('lam0', positive=True), sp.Symbol('w', positive=True)
-                with patched_np(MODS):
-                    got = calc.calc_rdm_poisson_cv(ds, 'cond', prior_lambda=lam0, prior_weight=w,
-                                                   cv_descriptor='fold').dissimilarities[0]
-                reg = lambda v: (v + lam0 * w) / (1 + w)
-                lg = lambda v: np.array([sp.log(e) for e in v], dtype=object)
-                want = _spec_cv(X, cond, fold, C, M,
-                                lambda am, bm, an, bn, m, n: np.dot(reg(am) - reg(bm), lg(reg(an)) - lg(reg(bn))))
-                ok, idx, diff = identical(got, want)
-                record(f'C02/calc_rdm_poisson_cv/B/mean-over-ordered-fold-pairs{tag}', ok, idx, diff, case,
-                       'poisson_cv(a,b) == mean over ordered pairs of distinct folds of (l_am-l_bm).(log l_an-log l_bn)/P')
+            with guard(run, f'C02/B/symbolic-execution[C={C},M={M},R={R},P={P},{order}]'):
+                cond, fold = _design(C, M, R, order)
+                X = symarray('x', (len(cond), P))
+                for flabels, fname in ((fold, 'int-folds'), ([['b', 'a', 'c'][f] for f in fold], 'str-folds')):
+                    if fname == 'str-folds' and order != 'sorted':
+                        continue
+                    ds = Dataset(X.copy(), obs_descriptors={'cond': list(cond), 'fold': list(flabels)})
+                    tag = f'[C={C},M={M},R={R},P={P},{order},{fname}]'
+                    case = dict(C=C, M=M, R=R, P=P, order=order, folds=fname)
+                    # --- crossnobis, identity precision
+                    with patched_np(MODS):
+                        got = calc.calc_rdm_crossnobis(ds, 'cond', cv_descriptor='fold').dissimilarities[0]
+                    want = _spec_cv(X, cond, fold, C, M, lambda am, bm, an, bn, m, n: np.dot(am - bm, an - bn))
+                    ok, idx, diff = identical(got, want)
+                    record(f'C02/calc_rdm_crossnobis/B/mean-over-ordered-fold-pairs{tag}', ok, idx, diff, case,
+                           'crossnobis(a,b) == mean over ordered pairs of distinct folds of (x_am-x_bm).(x_an-x_bn)/P for all real data')
+                    # --- crossnobis, one symbolic symmetric precision
+                    L = symarray('l', (P, P))
+                    N = np.dot(L, L.T)
+                    with patched_np(MODS):
+                        got = calc.calc_rdm_crossnobis(ds, 'cond', noise=N, cv_descriptor='fold').dissimilarities[0]
+                    want = _spec_cv(X, cond, fold, C, M, lambda am, bm, an, bn, m, n: np.dot(np.dot(am - bm, N), an - bn))
+                    ok, idx, diff = identical(got, want)
+                    record(f'C02/calc_rdm_crossnobis/B/single-precision{tag}', ok, idx, diff, case,
+                           'same with a symbolic symmetric precision matrix')
+                    # --- poisson_cv
+                    lam0, w = sp.Symbol('lam0', positive=True), sp.Symbol('w', positive=True)
+                    with patched_np(MODS):
+                        got = calc.calc_rdm_poisson_cv(ds, 'cond', prior_lambda=lam0, prior_weight=w,
+                                                       cv_descriptor='fold').dissimilarities[0]
+                    reg = lambda v: (v + lam0 * w) / (1 + w)
+                    lg = lambda v: np.array([sp.log(e) for e in v], dtype=object)
+                    want = _spec_cv(X, cond, fold, C, M,
+                                    lambda am, bm, an, bn, m, n: np.dot(reg(am) - reg(bm), lg(reg(an)) - lg(reg(bn))))
+                    ok, idx, diff = identical(got, want)
+                    record(f'C02/calc_rdm_poisson_cv/B/mean-over-ordered-fold-pairs{tag}', ok, idx, diff, case,
+                           'poisson_cv(a,b) == mean over ordered pairs of distinct folds of (l_am-l_bm).(log l_an-log l_bn)/P')
         # --- remove_mean: centring each fold mean over channels on both sides
-        cond, fold = _design(C, M, R, 'sorted')
-        X = symarray('x', (len(cond), P))
-        ds = Dataset(X.copy(), obs_descriptors={'cond': list(cond), 'fold': list(fold)})
-        L = symarray('l', (P, P))
-        N = np.dot(L, L.T)
-        with patched_np(MODS):
-            got = calc.calc_rdm_crossnobis(ds, 'cond', noise=N, cv_descriptor='fold', remove_mean=True).dissimilarities[0]
-        cen = lambda v: v - sum(v[1:], v[0]) / sp.Integer(len(v))
-        want = _spec_cv(X, cond, fold, C, M,
-                        lambda am, bm, an, bn, m, n: np.dot(np.dot(cen(am) - cen(bm), N), cen(an) - cen(bn)))
-        ok, idx, diff = identical(got, want)
-        record(f'C02/calc_rdm_crossnobis/B/remove-mean-centres-both-sides[C={C},M={M},R={R},P={P}]', ok, idx, diff,
-               dict(C=C, M=M, R=R, P=P), 'remove_mean centres train and test fold means over channels')
-        # --- one precision per fold: pair (m,n) uses inv((inv N_m + inv N_n)/2)
-        if M <= 3 and P == 2:
-            Ns = []
-            for m in range(M):
-                d = symarray(f'd{m}', (P,), positive=True)
-                Ns.append(np.diag(d))
+        with guard(run, f'C02/B/symbolic-execution[C={C},M={M},R={R},P={P},variants]'):
+            cond, fold = _design(C, M, R, 'sorted')
+            X = symarray('x', (len(cond), P))
+            ds = Dataset(X.copy(), obs_descriptors={'cond': list(cond), 'fold': list(fold)})
+            L = symarray('l', (P, P))
+            N = np.dot(L, L.T)
             with patched_np(MODS):
-                got = calc.calc_rdm_crossnobis(ds, 'cond', noise=Ns, cv_descriptor='fold').dissimilarities[0]
-
-            def pairprec(m, n):
-                a = sp.Matrix(Ns[m].tolist()).inv()
-                b = sp.Matrix(Ns[n].tolist()).inv()
-                return np.array(((a + b) / 2).inv().tolist(), dtype=object)
+                got = calc.calc_rdm_crossnobis(ds, 'cond', noise=N, cv_descriptor='fold', remove_mean=True).dissimilarities[0]
+            cen = lambda v: v - sum(v[1:], v[0]) / sp.Integer(len(v))
             want = _spec_cv(X, cond, fold, C, M,
-                            lambda am, bm, an, bn, m, n: np.dot(np.dot(am - bm, pairprec(m, n)), an - bn))
+                            lambda am, bm, an, bn, m, n: np.dot(np.dot(cen(am) - cen(bm), N), cen(an) - cen(bn)))
             ok, idx, diff = identical(got, want)
-            record(f'C02/calc_rdm_crossnobis/B/precision-per-fold[C={C},M={M},R={R},P={P}]', ok, idx, diff,
-                   dict(C=C, M=M, R=R, P=P), 'pair (m,n) uses the precision of the two folds averaged covariance; every ordered pair counted')
+            record(f'C02/calc_rdm_crossnobis/B/remove-mean-centres-both-sides[C={C},M={M},R={R},P={P}]', ok, idx, diff,
+                   dict(C=C, M=M, R=R, P=P), 'remove_mean centres train and test fold means over channels')
+            # --- one precision per fold: pair (m,n) uses inv((inv N_m + inv N_n)/2)
+            if M <= 3 and P == 2:
+                Ns = []
+                for m in range(M):
+                    d = symarray(f'd{m}', (P,), positive=True)
+                    Ns.append(np.diag(d))
+                with patched_np(MODS):
+                    got = calc.calc_rdm_crossnobis(ds, 'cond', noise=Ns, cv_descriptor='fold').dissimilarities[0]
+
+                def pairprec(m, n):
+                    a = sp.Matrix(Ns[m].tolist()).inv()
+                    b = sp.Matrix(Ns[n].tolist()).inv()
+                    return np.array(((a + b) / 2).inv().tolist(), dtype=object)
+                want = _spec_cv(X, cond, fold, C, M,
+                                lambda am, bm, an, bn, m, n: np.dot(np.dot(am - bm, pairprec(m, n)), an - bn))
+                ok, idx, diff = identical(got, want)
+                record(f'C02/calc_rdm_crossnobis/B/precision-per-fold[C={C},M={M},R={R},P={P}]', ok, idx, diff,
+                       dict(C=C, M=M, R=R, P=P), 'pair (m,n) uses the precision of the two folds averaged covariance; every ordered pair counted')
     for o in sorted(OVERRIDES_USED):
         run.trust('engine B proxy override: ' + o)
     run.trust('engine B: numpy `np` rebound in modules ' + ', '.join(MODS))
